@@ -87,7 +87,7 @@ def gen_knobs(rng, tier):
         faulted = rng.random() < 0.4
         return {"population": "dict_faulted" if faulted else "dict", "family": rng.choice(F.DICT_NAMES), "n_ops": rng.randint(3, 24),
                 "max_size": rng.choice([1, 2, 4]), "w_save": rng.choice([3, 5]), "w_export": rng.choice([1, 2]), "w_restart": rng.choice([1, 2]),
-                "fault_budget": rng.randint(1, 2) if faulted else 0}
+                "fault_budget": rng.randint(1, 2) if faulted else 0, "tmp_fs": rng.choice(["scratch", "other"])}
     names = sorted(FAMILY_NAMES)
     fam = rng.choice(names)
     key_kind = "cs" if fam == "callee_parameter_mapping" else rng.choice(["int", "int", "hash"])
@@ -461,8 +461,7 @@ def invivo_signature(v):
 def execute(trace):
     k = trace["knobs"]
     from sim.core import select_tmp
-    select_tmp(k.get("tmp_fs", "scratch") if isinstance(k.get("run_index", 0), int) and not k["population"].startswith("dict") else
-               ("other" if k.get("n_ops", 0) % 2 else "scratch"))
+    select_tmp(k.get("tmp_fs", "scratch"))
     if k["population"] == "invivo":
         return execute_invivo(trace)
     if k["population"].startswith("dict"):
